@@ -354,6 +354,29 @@ def contract_part(ck: Check, cm, polyH, clmo):
             proj = st[:, [IDX[PLANE[sc][0]], IDX[PLANE[sc][1]]]]
             cs.obs(t, "points_are_plane_projection", float(np.max(np.abs(pts - proj))) if pts.shape == proj.shape else 1.0)
             cs.obs(t, "energy_level", max(abs(c09.hcm(cm, polyH, clmo, p) - h0) for p in st))
+    # the accessors that project the stored 4-D states on ANY pair of axes (get_states / get_points with axes=...; plot uses them):
+    # every projection must be the corresponding columns of compute().states (engine order q2, p2, q3, p3)
+    pma = CenterManifoldMap(cm, h0)
+    for sc in (("q3", "p3") if ck.quick else ("q3", "p3", "q2", "p2")):
+        res = pma.compute(section_coord=sc, options=make_opts(n_workers=1, n_iter=1, n_seeds=4, dt=1e-2, order=4, max_steps=4000))
+        st = np.asarray(res.states, dtype=float)
+        label = f"accessors|section={sc}"
+        ck.count(("map-accessors", sc), True)
+        t = cs.trace(label, {"projection_is_state_columns": -120, "section_coordinate": -100}, {"section": sc, "part": "accessors"})
+        worst = 0.0
+        for a, b in itertools.permutations(("q2", "p2", "q3", "p3"), 2):
+            for getter in (pma.get_states, pma.get_points):
+                if getter == pma.get_points and not {a, b} <= set(PLANE[sc]):
+                    continue            # get_points projects the 2-D section points: only the plane's own labels are valid there
+                try:
+                    pr = np.asarray(getter(sc, axes=(a, b)), dtype=float)
+                except Exception as ex:  # noqa
+                    ck.violation(f"cm-map|accessor-raises:{getter.__name__}", f"{getter.__name__}('{sc}', axes=({a},{b})): {ex!r}"[:300], {"section": sc, "axes": [a, b]})
+                    continue
+                ref = st[:, [IDX[a], IDX[b]]]
+                worst = max(worst, float(np.max(np.abs(pr - ref))) if pr.shape == ref.shape else 1.0)
+        cs.obs(t, "projection_is_state_columns", worst)
+        cs.obs(t, "section_coordinate", float(np.max(np.abs(np.asarray(pma.get_states(sc, axes=(sc, PLANE[sc][0])), dtype=float)[:, 0]))) if st.shape[0] else 1.0)
     # history on ONE map object: a non-default section, then the configuration is re-assigned, then the same section is asked
     # for again with options that are not cached yet; then the sections alternate.  Every answer must lie on the section it
     # was asked for and equal what a fresh map object answers.
